@@ -6,6 +6,7 @@ RefList columns between them, 1-2 summary tables (two of them share a source, so
 columns), and 30-45 formula columns drawn from productions that cover every reference form the
 statement names. Column and table *keys* (A.s0, P.r1, ...) never change; ids do.
 """
+import re
 import random
 
 NAME_POOL = ['name', 'city', 'rank', 'age', 'total', 'count', 'upper', 'index', 'value', 'x', 'addr', 'person',
@@ -58,6 +59,13 @@ class Schema(object):
       ids = rnd.sample(pool, len(self.cols[t]))
       for k, cid in zip(sorted(self.cols[t]), ids):
         self.init_cid[t + '.' + k] = cid
+    # A reference column is often called exactly like the table it points to (Orders.Person -> Person): the
+    # column id then shares its name with a table id that formulas of that table mention.
+    if rnd.random() < 0.6:
+      tid = self.init_tid['P']
+      taken = set(v for k, v in self.init_cid.items() if k.startswith('E.') and k != 'E.r0')
+      if re.match(r'^[A-Z][A-Za-z0-9_]*$', tid) and tid not in taken and tid.lower() not in set(x.lower() for x in taken):
+        self.init_cid['E.r0'] = tid
     self.nrows = {t: rnd.randint(4, 7) for t in self.tables}
 
   # typed pickers --------------------------------------------------------------------------------
